@@ -13,7 +13,8 @@ print("## 13. Sensitivity: which checks catch which changes\n")
 print("Every change below compiles and passes the repository's 66 tests. `scripts/selftest.sh <patch> quick <IDs>`")
 print("applies it to a scratch worktree, confirms that, and runs the named quick checks against the copy")
 print("(`VERIF_REPO`), expecting `VIOLATION`. On the unchanged tree all 19 quick checks are silent at")
-print("`VERIF_SEED` 1, 2, 3 and 7 and in two `vp check` runs from a fresh restore.\n")
+print("`VERIF_SEED` 1, 2, 3, 5 and 7 and in the `vp check` runs from a fresh restore. Patches are kept applicable to")
+print("the current `/repo` HEAD (context lines of three of them were refreshed after fix 25ce5e8).\n")
 print("### 13.1 The original defects re-introduced (`mutants/revert-D*.patch`)\n")
 print("| mutant | caught by (quick tier) |\n|---|---|")
 for p in sorted(glob.glob(os.path.join(root, 'mutants', 'revert-D*.patch'))):
@@ -71,10 +72,13 @@ for d in sorted(glob.glob(os.path.join(root, 'seeded', '*', 'meta.json'))):
 print("\nRound 4 (ids B<n>-<a|b|c>): the sub-agents were asked for what a black-box framework driven by generated inputs")
 print("would plausibly miss - state that builds up, conjunctions of several specific conditions, interactions between objects.")
 print("Round 5 (ids H<n>-<a|b|c>): the same request, one angle per sub-agent (encoder, decoder, stream, setters, diagnostics,")
-print("concurrency/re-entrancy/lifetime). Of these 18 only 2 were caught when they arrived; all 18 are caught now.\n")
+print("concurrency/re-entrancy/lifetime). Of these 18 only 2 were caught when they arrived; all 18 are caught now.")
+print("Round 6 (ids K<n>-<a|b|c>): once more, six angles, with the list of everything tried so far. Of 17, six were caught")
+print("when they arrived; 16 are caught now, and K2-c is not counted as a violation (section 12.2, sixth round). One")
+print("sub-agent of this round found defect D13 in the unmodified library (section 6).\n")
 print("### 13.3 Property-preserving changes by independent sub-agents (`seeded/S<n>-<a..d>/`): must stay silent\n")
 print("Realistic changes that keep all 19 properties to the letter but alter observable behaviour, written as bait for")
-print("over-strict checks (each with a `show_test.go` that demonstrates the behavioural difference). All 19 quick checks")
+print("over-strict checks (each with a `show_test.go` that demonstrates the behavioural difference; S: round 4, Q: round 6). All 19 quick checks")
 print("are run against each; all must exit 0.\n")
 print("| id | change | outcome |\n|---|---|---|")
 for m in silent:
